@@ -267,6 +267,8 @@ def gen_scenario(rng, idx):
     allmode = rng.random() < 0.3
     badexpr = rng.random() < 0.04
     nullin = rng.random() < 0.06
+    if nullin:
+        badexpr = False        # the -n scenarios use a fixed, valid expression
     return dict(idx=idx, files=files, flags=flags, fmt=fmt, e=e, nul="-0" in flags, all=allmode, badexpr=badexpr, nullin=nullin)
 
 
